@@ -125,8 +125,13 @@ func (d *Decorator) DecorateNode(n ast.Node) (dst.Node, error) {
 	}
 
 	fd := d.newFileDecorator()
-	if f, ok := n.(*ast.File); ok {
-		fd.file = f
+	switch n := n.(type) {
+	case *ast.File:
+		fd.file = n
+	case *ast.Package:
+		for _, f := range n.Files {
+			fd.packageFiles = append(fd.packageFiles, f)
+		}
 	}
 	fd.fragment(n)
 	fd.link()
@@ -170,7 +175,8 @@ func (pd *Decorator) newFileDecorator() *fileDecorator {
 
 type fileDecorator struct {
 	*Decorator
-	file          *ast.File // file we're decorating in for import name resolution - can be nil if we're just decorating an isolated node
+	file          *ast.File   // file we're decorating in for import name resolution - can be nil if we're just decorating an isolated node
+	packageFiles  []*ast.File // files of the package we're decorating (only when decorating an *ast.Package)
 	cursor        int
 	fragments     []fragment
 	startIndents  map[ast.Node]int
@@ -327,7 +333,7 @@ func (f *fileDecorator) resolvePath(force bool, parent ast.Node, parentName, par
 		}
 	}
 
-	path, err := f.Resolver.ResolveIdent(f.file, parent, parentField, id)
+	path, err := f.Resolver.ResolveIdent(f.fileOf(id), parent, parentField, id)
 	if err != nil {
 		return "", err
 	}
@@ -339,6 +345,24 @@ func (f *fileDecorator) resolvePath(force bool, parent ast.Node, parentName, par
 	}
 
 	return path, nil
+}
+
+// fileOf returns the file that id should be resolved in: the file being decorated, or, when a
+// package is being decorated, the file of the package that contains the identifier.
+func (f *fileDecorator) fileOf(id *ast.Ident) *ast.File {
+	if f.file != nil {
+		return f.file
+	}
+	for _, pf := range f.packageFiles {
+		if len(pf.Decls) == 0 {
+			// nothing to resolve in a file without declarations
+			continue
+		}
+		if pf.Pos() <= id.Pos() && id.Pos() <= pf.End() {
+			return pf
+		}
+	}
+	return nil
 }
 
 func stripVendor(path string) string {
